@@ -2,10 +2,12 @@
    Case lines:  metrics bin <n> | metrics inc <n> | metrics conc <k> <n> <rounds> | metrics race <k> <rounds>
                 metrics ipc <geo 0|1> <op;op;...>     ops:  pb | pp,<addr|->,<cc>,<type>,<nat>,<relay 0|1>,<r|i|m>
                                                              | cd,<nat> | cm,<nat> | ct,<nat> | pr | ze
+                metrics jwin <from> <to> <start:end:ip.ip...;...>     hand-built journal, window query
+                metrics jwrite <interval> <a<t>.<ip>,f<t>,...>          writer ops at explicit clock values
    For [conc]/[race] the model answer is computed with the sequential [incsN]; by C19_inc_conc (repaired
    machine) every interleaving of the Incs publishes exactly this value at every quiescent point. *)
-From Coq Require Import List NArith Bool Arith String.
-From Snow Require Import Lib.Wire Model.Round8 Model.Metrics.
+From Coq Require Import List NArith ZArith Bool Arith String.
+From Snow Require Import Lib.Wire Model.Round8 Model.Metrics Model.Journal.
 Import ListNotations.
 Open Scope N_scope.
 
@@ -128,8 +130,64 @@ Definition run_metrics (args : list bytes) : option bytes :=
   | _ => None
   end.
 
+(* ---------- journal (addresses and masked values are numbers; mask = identity, injective like the HMAC) ---------- *)
+Definition jmask (a : N) : N := a.
+Definition zparse (t : bytes) : option Z := option_map Z.of_N (dec_parse t).
+Definition zprint (z : Z) : bytes := zdec_print z.
+
+Definition chunk_parse (t : bytes) : option (chunk N) :=
+  match split_on COLON t with
+  | [a; b; ips] =>
+      match zparse a, zparse b, (if beq ips (bs "-") then Some [] else map_opt dec_parse (split_on DOT ips)) with
+      | Some a, Some b, Some ips => Some {| c_start := a; c_end := b; c_sk := sk_of N N.eqb ips |}
+      | _, _, _ => None
+      end
+  | _ => None
+  end.
+
+Definition jop_parse (t : bytes) : option (jop N) :=
+  match t with
+  | 97 :: r => match split_on DOT r with
+               | [a; b] => match zparse a, dec_parse b with Some a, Some b => Some (Add a b) | _, _ => None end
+               | _ => None
+               end
+  | 102 :: r => option_map (fun a => @Flush N a) (zparse r)
+  | _ => None
+  end.
+
+Definition chunk_print (c : chunk N) : bytes :=
+  zprint (c_start c) ++ [COLON] ++ zprint (c_end c) ++ [COLON] ++ dec_print (N.of_nat (List.length (c_sk c))).
+
+Definition run_journal (args : list bytes) : option bytes :=
+  match args with
+  | [op; a; b; c] =>
+      if beq op (bs "jwin") then
+        match zparse a, zparse b, (if beq c (bs "-") then Some [] else map_opt chunk_parse (split_on SEMI c)) with
+        | Some from, Some to, Some j =>
+            let r := count N N.eqb from to j in
+            Some (bs "sum=" ++ dec_print (fst r) ++ bs " chunks=" ++ dec_print (snd r))
+        | _, _, _ => None
+        end
+      else None
+  | [op; a; b] =>
+      if beq op (bs "jwrite") then
+        match zparse a, list_parse jop_parse b with
+        | Some k, Some ops =>
+            let w := jrun N N jmask N.eqb ops (new_writer 0%Z k) in
+            let all := count N N.eqb 0%Z (w_last w) (w_out w) in
+            Some (bs "chunks=" ++ (match w_out w with [] => bs "-" | _ => join [SEMI] (map chunk_print (w_out w)) end)
+                  ++ bs " all=" ++ dec_print (fst all))
+        | _, _ => None
+        end
+      else None
+  | _ => None
+  end.
+
 Definition run (args : list bytes) : bytes :=
   match run_round8 args with
   | Some r => r
-  | None => match run_metrics args with Some r => r | None => ERR_BADCASE end
+  | None => match run_metrics args with
+            | Some r => r
+            | None => match run_journal args with Some r => r | None => ERR_BADCASE end
+            end
   end.
